@@ -4,7 +4,9 @@
 //! TLC validates every record against `spec/Migration/{Scheduling,Classify}.tla`.
 //!
 //! The RNG handed to the code is the *environment*: ChaCha20 seeded per record, or one of the
-//! degenerate streams `zero`, `ones`, `alt` (0x5555.., 0xAAAA.. alternating), `counter` (0,1,2,..).
+//! degenerate streams `zero`, `ones`, `alt` (0x5555.., 0xAAAA.. alternating), `counter` (0,1,2,..),
+//! `lemire` (words ceil(j 2^64 / b), which land in the rejection zone of the index sampler),
+//! `ages` (words 2^(a-1), a uniform in 1..8: uniformly distributed anchor ages).
 //! Every stream is wrapped in a word budget: a call that consumes more than BUDGET words is cut
 //! off (panic caught by `guarded`) and logged with outcome "spin" -- the specification says for
 //! which (stream, call) pairs the rejection loops must terminate.
@@ -75,6 +77,12 @@ enum Kind {
     Ones,
     Alt(u64),
     Counter(u64),
+    /// words ceil(j * 2^64 / b) for small b: for an index draw with bound b the product's low half
+    /// is below b (Lemire's rejection zone); for b a power of two the word has >= 61 trailing zeros
+    Lemire(Box<ChaCha20Rng>),
+    /// words 2^(a-1), a uniform in 1..=8: the coin-flip age is a, uniformly (old and over-age
+    /// anchors are as frequent as recent ones); index draws yield 0, delays 0
+    Ages(Box<ChaCha20Rng>),
 }
 
 struct Stream {
@@ -90,6 +98,8 @@ impl Stream {
             "ones" => Kind::Ones,
             "alt" => Kind::Alt(0),
             "counter" => Kind::Counter(0),
+            "lemire" => Kind::Lemire(Box::new(ChaCha20Rng::seed_from_u64(seed))),
+            "ages" => Kind::Ages(Box::new(ChaCha20Rng::seed_from_u64(seed))),
             other => panic!("unknown stream {other}"),
         };
         Stream { kind, used: 0 }
@@ -118,6 +128,12 @@ impl RngCore for Stream {
                 *i += 1;
                 v
             }
+            Kind::Lemire(r) => {
+                let b = r.gen_range(2..=9u128);
+                let j = r.gen_range(0..b);
+                ((j << 64).div_ceil(b)) as u64
+            }
+            Kind::Ages(r) => 1u64 << r.gen_range(0..8u32),
         }
     }
     fn fill_bytes(&mut self, dest: &mut [u8]) {
@@ -227,6 +243,25 @@ fn rec_expiry(hs: &[u32]) -> Value {
     let r = guarded(|| hs.iter().map(|h| hu(expiry_height(bh(*h)))).collect::<Vec<u32>>());
     json!({"a": "expiry", "oc": oc(&r), "hs": hs.iter().map(|h| enc(*h)).collect::<Vec<_>>(),
            "es": r.unwrap_or_default().iter().map(|h| enc(*h)).collect::<Vec<_>>()})
+}
+
+/// The trait-level forms (default ZIP 318 constants): canonical_expiry, is_canonical_expiry against a
+/// reference height, and the height-independent is_canonical_expiry_value, on probe expiries `pe`.
+fn rec_cexp(hs: &[u32], pe: &[u32]) -> Value {
+    let r = guarded(|| {
+        hs.iter()
+            .zip(pe)
+            .map(|(h, e)| {
+                (hu(Zip.canonical_expiry(bh(*h))), Zip.is_canonical_expiry(bh(*e), bh(*h)), Zip.is_canonical_expiry_value(bh(*e)))
+            })
+            .collect::<Vec<_>>()
+    });
+    let v = r.clone().unwrap_or_default();
+    json!({"a": "cexp", "oc": oc(&r), "hs": hs.iter().map(|h| enc(*h)).collect::<Vec<_>>(),
+           "pe": pe.iter().map(|h| enc(*h)).collect::<Vec<_>>(),
+           "ce": v.iter().map(|x| enc(x.0)).collect::<Vec<_>>(),
+           "isc": v.iter().map(|x| x.1).collect::<Vec<_>>(),
+           "iscv": v.iter().map(|x| x.2).collect::<Vec<_>>()})
 }
 
 fn rec_shuffle(rng: &str, rs: u64, n: usize) -> Value {
@@ -430,6 +465,8 @@ fn rerun_one(r: &Value) -> Value {
                                  dec(&r["start"]), u(&r["n"]) as usize),
         "zipsched" => rec_zipsched(&rng, rs, dec(&r["start"]), u(&r["n"]) as usize),
         "expiry" => rec_expiry(&r["hs"].as_array().unwrap().iter().map(dec).collect::<Vec<_>>()),
+        "cexp" => rec_cexp(&r["hs"].as_array().unwrap().iter().map(dec).collect::<Vec<_>>(),
+                           &r["pe"].as_array().unwrap().iter().map(dec).collect::<Vec<_>>()),
         "shuffle" => rec_shuffle(&rng, rs, u(&r["n"]) as usize),
         "shufflein" => rec_shuffle_in_place(&rng, rs, &r["inp"].as_array().unwrap().iter().map(u).collect::<Vec<_>>()),
         "anchor" => rec_anchor(&rng, rs, u(&r["iv"]), dec(&r["act"]), dec(&r["fund"]), dec(&r["tip"])),
@@ -478,7 +515,9 @@ impl Gen {
     fn stream(&mut self) -> (&'static str, u64) {
         let rs = self.g.gen_range(0..2_000_000_000u64);
         let k = match self.g.gen_range(0..100) {
-            0..=59 => "chacha",
+            0..=44 => "chacha",
+            45..=49 => "ages",
+            50..=59 => "lemire",
             60..=69 => "zero",
             70..=79 => "ones",
             80..=89 => "alt",
@@ -564,14 +603,23 @@ fn gen_sched(seed: u64, scale: usize, w: &mut NdjsonWriter) {
     for i in 0..1500 * scale {
         let (m, c) = g.dist();
         let n = g.g.gen_range(0..=12usize);
-        let start = clamp(g.base(n as i64 * c as i64 + 3));
+        let mut start = clamp(g.base(n as i64 * c as i64 + 3));
+        if g.g.gen_bool(0.25) {
+            // just below a multiple of the expiry modulus, so that the schedule straddles it
+            let k = (start as i64 / 34_560).max(1);
+            start = clamp(k * 34_560 - g.g.gen_range(0..=(2 * m as i64 + 2)));
+        }
         let (k, rs) = g.stream();
         let which = ["transfer", "prep", "schedule"][i % 3];
         w.emit(&rec_heights(which, k, rs, m, c, start, n));
     }
     for _ in 0..150 * scale {
         let n = g.g.gen_range(0..=12usize);
-        let start = clamp(g.base(6000));
+        let mut start = clamp(g.base(6000));
+        if g.g.gen_bool(0.4) {
+            let k = (start as i64 / 34_560).max(1);
+            start = clamp(k * 34_560 - g.g.gen_range(0..=200));
+        }
         let (k, rs) = g.stream();
         w.emit(&rec_zipsched(k, rs, start, n));
     }
@@ -591,6 +639,23 @@ fn gen_sched(seed: u64, scale: usize, w: &mut NdjsonWriter) {
     }
     for chunk in hs.chunks(50) {
         w.emit(&rec_expiry(chunk));
+        // probe expiries: multiples of the modulus around the height, ordinary expiries, neighbours
+        let pe: Vec<u32> = chunk
+            .iter()
+            .map(|h| {
+                let h = *h as i64;
+                let m = 34_560i64;
+                match g.g.gen_range(0..6) {
+                    0 => clamp(h + 40),
+                    1 => clamp((h / m + g.g.gen_range(0..4)) * m),
+                    2 => clamp((h / m + 2) * m + g.g.gen_range(-1..=1)),
+                    3 => clamp(g.g.gen_range(0..4) * m),
+                    4 => clamp(UMAX - g.g.gen_range(0..3)),
+                    _ => clamp((h / m + 2) * m),
+                }
+            })
+            .collect();
+        w.emit(&rec_cexp(chunk, &pe));
     }
 
     // ---- shuffles
@@ -636,7 +701,10 @@ fn gen_sched(seed: u64, scale: usize, w: &mut NdjsonWriter) {
                 g.near(t - k * iv as i64, iv, 1)
             }
         };
-        let (k, rs) = g.stream();
+        let (mut k, rs) = g.stream();
+        if g.g.gen_bool(0.15) {
+            k = "ages";
+        }
         w.emit(&rec_anchor(k, rs, iv, act, fund, tip));
         if g.g.gen_bool(0.3) {
             w.emit(&rec_earliest(iv, act, fund));
@@ -648,7 +716,10 @@ fn gen_sched(seed: u64, scale: usize, w: &mut NdjsonWriter) {
         let bcast = g.near(b, iv, 4);
         let back = g.g.gen_range(0..7);
         let prior = g.near(bcast as i64 - back * iv as i64, iv, 1);
-        let (k, rs) = g.stream();
+        let (mut k, rs) = g.stream();
+        if g.g.gen_bool(0.15) {
+            k = "ages";
+        }
         w.emit(&rec_redraw(k, rs, iv, prior, bcast));
     }
 
